@@ -1180,6 +1180,42 @@ func discoverErrUse(p *Program, pkgs map[string]bool, report func(fn *ssa.Functi
 					}
 				}
 			}
+			if joins && used {
+				// the failing edge joins other paths at once and a read of the error lies
+				// downstream - but inside a loop the error can still be lost: when some path
+				// leads from the failing edge back to the instruction that produced it without
+				// passing a read, the next turn overwrites it (only the last element's failure
+				// survives). Phi nodes carry the value, they do not read it.
+				if di, ok := ev.(ssa.Instruction); ok && di.Block() != bad {
+					defBlock := di.Block()
+					useBlocks := map[*ssa.BasicBlock]bool{}
+					for _, d := range fn.Blocks {
+						for _, ins := range d.Instrs {
+							if _, isPhi := ins.(*ssa.Phi); isPhi {
+								continue
+							}
+							if _, isDbg := ins.(*ssa.DebugRef); isDbg {
+								continue
+							}
+							if v, isV := ins.(ssa.Value); isV && v == iff.Cond {
+								continue
+							}
+							if d == b {
+								continue // the test's own block: its reads precede the failing edge
+							}
+							for _, op := range ins.Operands(nil) {
+								if op != nil && (*op == ev || (alt != nil && *op == alt)) {
+									useBlocks[d] = true
+								}
+							}
+						}
+					}
+					delete(useBlocks, defBlock)
+					if !useBlocks[bad] && (bad == defBlock || pathAvoidingFrom(bad, defBlock, useBlocks)) {
+						used = false
+					}
+				}
+			}
 			report(fn, ev, iff, used, returns)
 		}
 	}
